@@ -12,6 +12,7 @@ import (
 	"sync"
 
 	"github.com/nlnwa/whatwg-url/canonicalizer"
+	liberrors "github.com/nlnwa/whatwg-url/errors"
 	"github.com/nlnwa/whatwg-url/url"
 )
 
@@ -119,9 +120,10 @@ func concRound(seed uint64, round int, workers int) (njobs int, diffs []string) 
 	// are kept as values and compared after the join. All workers walk the job list in the SAME order
 	// behind a start barrier, so that first uses (lazy initialisation) happen simultaneously.
 	type rawRes struct {
-		u   *url.Url
-		err error
-		pan interface{}
+		u       *url.Url
+		err     error
+		pan     interface{}
+		errText int // total length of everything the recorded validation errors print
 	}
 	exec := func(j concJob) (res rawRes) {
 		defer func() {
@@ -205,6 +207,15 @@ func concRound(seed uint64, round int, workers int) (njobs int, diffs []string) 
 			// getters of the shared base
 			_ = b.Href(false) + b.Protocol() + b.Username() + b.Password() + b.Host() + b.Hostname() + b.Port() + b.Pathname() + b.Search() + b.Hash() + b.String()
 			_, _, _, _, _ = b.IsIPv4(), b.IsIPv6(), b.DecodedPort(), b.OpaquePath(), b.IsSpecialScheme()
+			// the recorded validation errors are getters of the shared value too: their text, type, URL and flags
+			n := 0
+			for _, e := range b.ValidationErrors() {
+				n += len(e.Error()) + len(string(liberrors.Type(e))) + len(liberrors.Url(e)) + len(liberrors.Description(e))
+				if liberrors.Failure(e) {
+					n++
+				}
+			}
+			res.errText = n
 			res.u = b
 		}
 		return res
@@ -214,7 +225,7 @@ func concRound(seed uint64, round int, workers int) (njobs int, diffs []string) 
 			return "PANIC " + fmt.Sprint(r.pan)
 		}
 		if j.kind == 6 {
-			return Obs{Kind: "U", Fields: append(urlFields(r.u), r.u.String())}.String()
+			return Obs{Kind: "U", Fields: append(urlFields(r.u), r.u.String(), fmt.Sprint(r.errText))}.String()
 		}
 		return implObs(r.u, r.err).String()
 	}
